@@ -191,7 +191,7 @@ func init() {
 		Sel: []Sel{{Pattern: "js.Lexer.*", Levels: "SF"}, {Pattern: "js.NewLexer", Levels: "S"}},
 		NotDecided: []string{
 			"identifier tokens: Unicode ID_Start/ID_Continue classes and \\u escapes (only memory safety and progress are proved for consumeIdentifierToken)",
-			"numeric literals: the per-radix digit alphabets, separators and BigInt suffix (only the closed set of numeric token types is proved)",
+			"numeric literals: proved are the extents of hexadecimal, binary, octal and decimal literals including numeric separators (a '_' only between digits of the radix), the BigInt suffix and the exponent; not decided: the legacy-octal and 'identifier directly after a number' error paths, and IntegerToken literals that start with 0",
 			"template nesting via level/templateLevels (which '}' resumes a template); for string and template tokens the extent is proved (first unescaped delimiter / '${' / raw line break, with line continuations) but not the validity of the escape sequences inside",
 			"RegExp(): character-class and escape tracking of consumeRegExpToken (memory safety and progress only)",
 			"the converse direction for keywords (an identifier whose text is a keyword spelling never gets IdentifierToken) follows from the exact Keywords table used in the encoding but is not stated as a clause",
